@@ -12,7 +12,7 @@ import (
 func init() { register("C04", "exploration", runC04) }
 
 var (
-	c04Ops    = []string{"media", "multipart", "resumable", "patch", "delete", "compose", "patchfull"}
+	c04Ops    = []string{"media", "multipart", "resumable", "patch", "delete", "compose", "patchfull", "patchbad"}
 	c04States = []string{"absent", "fresh", "patched", "recreated"}
 )
 
@@ -21,13 +21,15 @@ const c04Tuples = 5 * 4 * 4 * 4 // ifGenerationMatch {unset,=cur,!=cur,0,junk} x
 // C04: preconditions gate mutations exactly. Complete enumeration of the condition-tuple space in both tiers, random
 // histories on top; oracle = truth table of the statement + "a failed request changed nothing" whole-bucket diff.
 func runC04(run *common.Run) {
-	run.Rule = fmt.Sprintf("sub-space 'enum' (enumerated COMPLETELY in both tiers, exhaustive=true refers to it): %d condition tuples (ifGenerationMatch in {unset,=cur,!=cur,0,junk} x ifGenerationNotMatch, ifMetagenerationMatch, ifMetagenerationNotMatch in {unset,=cur,!=cur,junk}) x object state {absent, fresh (metageneration 1), patched (metageneration 3), deleted-and-recreated (!=cur = the deleted generation)} x operation {media, multipart, resumable (conditions at initiation), patch, delete, compose destination, patch whose body is a full object resource as an EARLIER metadata GET returned it (stale generation / metageneration / md5Hash / size for the patched and recreated states) with one user field changed} x store {mem,file} = %d cases; sub-space 'src' (complete): compose with 1-3 sources, per-source ifGenerationMatch in {unset,=cur,!=cur} at every position x destination {absent,fresh} x store. Each case = fresh bucket with two neighbour objects, set-up of the target state, baseline dump, the one request, dump; expected status from the truth table, after any non-2xx the dump must equal the baseline. 'late' (complete): resumable sessions initiated with one condition, the target overwritten / patched / deleted / created while the session is open, then completed: the condition is judged against the object at completion; 'hist': random histories whose conditions refer to generations learned earlier. Non-trivial = the request carried at least one condition (enum/src) resp. the history saw both a passing and a failing conditioned request; distinct by case index.", c04Tuples, c04Tuples*len(c04States)*len(c04Ops)*2)
+	run.Rule = fmt.Sprintf("sub-space 'enum' (enumerated COMPLETELY in both tiers, exhaustive=true refers to it): %d condition tuples (ifGenerationMatch in {unset,=cur,!=cur,0,junk} x ifGenerationNotMatch, ifMetagenerationMatch, ifMetagenerationNotMatch in {unset,=cur,!=cur,junk}) x object state {absent, fresh (metageneration 1), patched (metageneration 3), deleted-and-recreated (!=cur = the deleted generation)} x operation {media, multipart, resumable (conditions at initiation), patch, delete, compose destination, patch whose body is a full object resource as an EARLIER metadata GET returned it (stale generation / metageneration / md5Hash / size for the patched and recreated states) with one user field changed - for a quarter of the tuples the resource of the neighbour object nb1, for another quarter renamed to an object that does not exist, so that name / id / links in the body differ from the URL -, patch whose body has valid members (user metadata, acl / owner / retention / customerEncryption) followed by a member of the wrong JSON type} x store {mem,file} = %d cases; sub-space 'src' (complete): compose with 1-3 sources, per-source ifGenerationMatch in {unset,=cur,!=cur} at every position x destination {absent,fresh} x store. The target is uploaded with acl entries, owner, retention and customerEncryption in its metadata and every plain PATCH of the grid that must fail also names those nested fields with other values. Each case = fresh bucket with two neighbour objects, set-up of the target state, baseline dump, the one request, dump; expected status from the truth table, after any non-2xx the dump must equal the baseline. 'late' (complete): resumable sessions initiated with one condition, the target overwritten / patched / deleted / created while the session is open, then completed: the condition is judged against the object at completion; 'hist': random histories whose conditions refer to generations learned earlier. Non-trivial = the request carried at least one condition (enum/src) resp. the history saw both a passing and a failing conditioned request; distinct by case index.", c04Tuples, c04Tuples*len(c04States)*len(c04Ops)*2)
 	run.Assumptions = []string{
 		"truth table taken from the statement: junk => 400; absent object passes only {} and {ifGenerationMatch=0}; 412 for match-type, 304 for not-match-type failures, either when both kinds fail; on an absent object 412 or 304 (and 404 for patch/delete)",
 		"zero values for the three parameters other than ifGenerationMatch are outside the stated space and never sent",
 		"for an absent object '=cur' / '!=cur' are a neighbour's generation (+1) and metageneration 1 / 2",
 		"resumable: an unparsable condition may be rejected at initiation or at completion",
 		"a resource without a size field is read as size 0",
+		"a PATCH whose body has a member of the wrong JSON type (e.g. contentType: 7) is either refused (any 4xx; with failing conditions also their status) and then nothing may have changed, or acknowledged as a patch of its valid members when the object is live and the conditions hold",
+		"nested resource fields (acl, owner, retention, customerEncryption) are only sent in upload metadata and in PATCH requests that must be refused; the oracle for them is 'whatever the server showed before a failed request it shows afterwards'",
 		"a PATCH body may be a full object resource from an earlier GET: its output-only fields (generation, metageneration, size, md5Hash, name, bucket, links, timestamps, kind) must not influence the verdict or the object",
 	}
 	j := common.NewJournal("C04")
@@ -154,7 +156,12 @@ func c04Setup(e *exec, b, state string, r *common.Rand) (oldGen int64, msg strin
 	}
 	mk := func(body string) string {
 		return e.upload(&uploadSpec{Proto: "multipart", Bucket: b, Name: "t", Body: []byte(body), CT: "text/plain", CTMode: "both",
-			UserMeta: map[string]string{"k": "v"}, Boundary: "verif_bnd_setup"}, r)
+			UserMeta: map[string]string{"k": "v"}, Boundary: "verif_bnd_setup",
+			// nested fields: a refused PATCH that names them must leave them as the server shows them now
+			Extra: map[string]any{"acl": []any{map[string]any{"entity": "user-a@example.com", "role": "OWNER"}, map[string]any{"entity": "group-readers@example.com", "role": "READER"}},
+				"owner":              map[string]any{"entity": "user-a@example.com"},
+				"retention":          map[string]any{"mode": "Unlocked", "retainUntilTime": "2031-01-02T03:04:05Z"},
+				"customerEncryption": map[string]any{"encryptionAlgorithm": "AES256", "keySha256": "dmVyaWYtdmVyaWYtdmVyaWYtdmVyaWYtdmVyaWYtdmU="}}}, r)
 	}
 	switch state {
 	case "fresh":
@@ -249,11 +256,31 @@ func c04Enum(run *common.Run, srv *drive.Server, idx int) {
 			Boundary: "verif_bnd_c04", Conds: c, KnownTotal: tuple%2 == 0, ChunkMax: 12, UseLocation: tuple%4 < 2}
 		msg = e.upload(u, r)
 	case "patch":
-		msg = e.patch(b, "t", map[string]any{"contentLanguage": "de"}, c)
+		body := map[string]any{"contentLanguage": "de"}
+		if cur == nil || verdict != model.Pass {
+			// the request is refused whatever its body: it also names the nested fields the target was uploaded with
+			for k, v := range genNestedPatch(r) {
+				body[k] = v
+			}
+		}
+		msg = e.patch(b, "t", body, c)
+	case "patchbad":
+		// valid members (user metadata, nested fields) followed by a member of the wrong JSON type
+		msg = e.patchBad(b, "t", genBadPatch(r, true), c)
 	case "patchfull":
 		body := map[string]any{"kind": "storage#object", "name": "t", "bucket": b, "generation": "1700000000000000123", "metageneration": "5", "size": "7", "md5Hash": "1B2M2Y8AsgTpgAmY7PhCfg=="}
 		if sn := e.snaps[b+"\x00t"]; len(sn) > 0 {
 			body = cloneResource(sn[0]) // the oldest resource a GET ever returned for this name
+		}
+		switch tuple % 4 {
+		case 2:
+			// the full resource of ANOTHER live object (metadata copied from a neighbour): name, id and links differ from the URL
+			e.snapshot(b, "nb1")
+			if sn := e.snaps[b+"\x00nb1"]; len(sn) > 0 {
+				body = cloneResource(sn[0])
+			}
+		case 3:
+			body["name"], body["id"], body["selfLink"] = "no-such-object", b+"/no-such-object/1", "http://127.0.0.1:1/storage/v1/b/"+b+"/o/no-such-object"
 		}
 		body["contentLanguage"] = "de"
 		msg = e.patch(b, "t", body, c)
@@ -411,8 +438,8 @@ func c04History(run *common.Run, idx int) {
 	fail := func(what string) {
 		run.Violation("hist", idx, what, map[string]any{"store": store, "steps": tailSteps(e.steps, 40), "steps_total": len(e.steps)})
 	}
-	o := &progOpts{Buckets: []string{"vb1"}, Names: []string{"t", "u", "dir/v", "w.txt"}, FileRules: store == "file", CondPct: 75, JunkPct: 6, MD5Pct: 10, NoGzip: true,
-		W: map[string]int{"upload": 20, "overwrite": 25, "delete": 14, "delete_absent": 5, "patch": 12, "patch_full": 12, "patch_absent": 4, "compose": 10, "noop": 1}}
+	o := &progOpts{Buckets: []string{"vb1"}, Names: []string{"t", "u", "dir/v", "w.txt"}, FileRules: store == "file", CondPct: 75, JunkPct: 6, MD5Pct: 10, NoGzip: true, ExtraPct: 50,
+		W: map[string]int{"upload": 20, "overwrite": 25, "delete": 14, "delete_absent": 5, "patch": 14, "patch_full": 12, "patch_bad": 8, "patch_absent": 4, "compose": 10, "noop": 1}}
 	if msg := e.createBucket("vb1"); msg != "" {
 		fail(msg)
 		return
